@@ -30,12 +30,18 @@ RULE = ("op sequences (value, error, call, is_computed, set_value, set_error, re
         "cancel, subscribe) and reads on items; plus the PROVIDER-CLASS dimension: every raise of a provider / task body / "
         "flush body raises one of the 17 Exception classes, or the computation is the second resolver of a promise shared "
         "with another lazy resolver (genuine FutureIsAlreadyComputed about that other future) - drawn for every raise of "
-        "all families and swept: 18 x (Future/AsyncTask x first accessor value/error/call, scheduled-task body, flush body)")
+        "all families and swept: 18 x (Future/AsyncTask x first accessor value/error/call, scheduled-task body, flush body); "
+        "plus CROSS-FUTURE CALLBACKS: a subscriber that completes ANOTHER future of the case from inside its callback "
+        "(set_value/set_error, guarded by is_computed() or not, on a later / earlier sibling item, the item itself, the "
+        "batch, an absent future; chains), a _cancel() override that sets items, items set / subscribed from outside - in "
+        "the random batch family and swept: 9 completion paths (cancel, raising flush, partial flush, item read, batch "
+        "read, batch set_value / set_error, item set from outside, cancel with override) x 5 target relations x guarded/"
+        "unguarded; in the single-future families: a subscriber calling set_value/set_error on the future being notified")
 TRUSTED = ["qcore.events.EventHook subscribe/unsubscribe/safe_trigger are modelled as list append / remove-first / a loop "
            "over a copy of the handler list (Futures.notify); qcore.errors.reraise is exercised, not modelled"]
 ASSUMPTIONS = ["callbacks raise only Exception subclasses - of any class (BaseException from a callback is outside the statement)",
-               "KBatch: items get their subscribers before the first operation, no reset_unsafe(), no set_value/set_error on "
-               "items from outside the flush body (C11's check drives batches in the scheduler)",
+               "KBatch: no reset_unsafe(); callbacks re-enter through set_value/set_error and the subscription list only (no "
+               "computing reads, flush() or cancel() from inside a callback); C11's check drives batches in the scheduler",
                "batches and batch items are driven by C11's check; here a batch item only carries a task's suspension",
                "a computing read of a suspended task from inside its own dependency's computation (re-entrant scheduler) "
                "and AsyncContext pause()/resume() failures are not explored"]
@@ -312,7 +318,7 @@ def _map_case(c, f, g=None):
     """The same case with the Exception class of every raising subscriber (top-level and inner) mapped by f
     (model: TaskFutProofs.recls_case) and, if given, the class of every raise of the provider / body / flush body
     mapped by g (model: TaskFutProofs.precls_case)."""
-    kind, a1, a2, ops = c["args"]
+    kind, a1, a2, ops = c["args"][:4]
     if g is not None:
         if kind in ("KSusp", "KBatch"):
             a2 = _map_pout(a2, g)
@@ -321,7 +327,7 @@ def _map_case(c, f, g=None):
     if kind == "KBatch":
         a1 = [{"": [[{"": [sb[""][0], _map_beh(sb[""][1], f)]} for sb in sp[""][0]], sp[""][1]]} for sp in a1]
         ops = [{"BOn": [o["BOn"][0], _map_ops([o["BOn"][1]], "O", f)[0]]} if isinstance(o, dict) and "BOn" in o else o for o in ops]
-        args = [kind, a1, a2, ops]
+        args = [kind, a1, a2, ops] + c["args"][4:]
         return {"args": args, "tree": args, "meta": dict(c.get("meta", {}))}
     if kind == "KSusp":
         a1 = [{"mkphase": [p["mkphase"][0], p["mkphase"][1], _map_ops(p["mkphase"][2], "I", f), p["mkphase"][3]]} for p in a1]
@@ -453,21 +459,127 @@ def _batch_completing(rng, nitems):
     return _on(0, {"OSetValue": [_val(rng)]} if rng.random() < 0.5 else {"OSetError": [rng.randrange(200, 260)]})
 
 
+def _cbset(rng, me, nitems, rel=None, guarded=None):
+    """A subscriber of future `me` (0 = batch, i = item i) that completes ANOTHER future of the case from inside its
+    callback: a later / earlier sibling item, itself, the batch, anybody (maybe absent)."""
+    rel = rel or rng.choice(["later", "later", "later", "earlier", "self", "batch", "any"])
+    if rel == "later":
+        t = me + 1 if me < nitems else 1
+    elif rel == "earlier":
+        t = me - 1 if me > 1 else nitems
+    elif rel == "self":
+        t = me
+    elif rel == "batch":
+        t = 0
+    else:
+        t = rng.randrange(0, nitems + 2)
+    g = (rng.random() < 0.6) if guarded is None else guarded
+    return {"CbSet": [t, _outc(rng), "true" if g else "false"]}
+
+
+CROSS_PATHS = ["cancel", "flush-raises", "flush-partial", "item-read", "batch-read", "batch-set-value", "batch-set-error",
+               "item-set-outside", "cancel-override"]
+CROSS_RELS = ["later", "earlier", "self", "batch", "chain"]
+
+
+def _cross_case(rng, path, rel, guarded):
+    """Cross-future profile: 2..4 items that are still uncomputed when the batch completes through `path`; a subscriber
+    on one item completes - guarded or not - a later / earlier sibling, itself, the batch, or starts a chain (item i
+    sets i+1 whose subscriber sets i+2); recording subscribers on every future."""
+    n = rng.choice([2, 3, 3, 4])
+    pos = rng.randrange(1, n) if rel in ("later", "chain") else rng.randrange(2, n + 1) if rel == "earlier" else rng.randrange(1, n + 1)
+    items = []
+    for i in range(1, n + 1):
+        subs = [{"": [i, "CbOk"]}]
+        if i == pos:
+            subs.insert(rng.choice([0, 1]), {"": [10 + i, _cbset(rng, i, n, "later" if rel == "chain" else rel, guarded)]})
+        elif rel == "chain" and i == pos + 1 and i < n:
+            subs.append({"": [10 + i, _cbset(rng, i, n, "later", guarded)]})
+        elif rng.random() < 0.15:
+            subs.append({"": [10 + i, _R(_xcls(rng))]})
+        if path == "flush-partial":
+            acts = [_outc(rng)] if i > pos + 1 or (i < pos and rng.random() < 0.5) else []
+        elif path in ("item-read", "batch-read"):
+            acts = [] if rng.random() < 0.5 else [_outc(rng)]
+        else:
+            acts = [_outc(rng)] if rng.random() < 0.3 and path != "flush-raises" else []
+        items.append({"": [subs, acts]})
+    fin = _PR(rng.randrange(1, 60), _xcls(rng)) if path == "flush-raises" else {"PRet": [_val(rng)]}
+    ops = [_on(0, {"OSubscribe": [20, "CbOk"]})]
+    if rng.random() < 0.3:
+        ops.append(_on(0, {"OSubscribe": [21, _cbset(rng, 0, n, "any", guarded)]}))
+    cancel = []
+    if path == "cancel":
+        ops.append("BCancel")
+    elif path == "cancel-override":
+        cancel = [{"": [{"n": rng.randrange(0, n)}, _outc(rng)]} for _ in range(rng.choice([1, 2]))]
+        ops.append(rng.choice(["BCancel", _on(0, {"OSetError": [rng.randrange(200, 260)]})]))
+    elif path in ("flush-raises", "flush-partial"):
+        ops.append(rng.choice(["BFlush", _on(0, "OError"), _on(rng.randrange(1, n + 1), "OError")]))
+    elif path == "item-read":
+        ops.append(_on(rng.randrange(1, n + 1), rng.choice(["OValue", "OError", "OCall"])))
+    elif path == "batch-read":
+        ops.append(_on(0, rng.choice(["OValue", "OError", "OCall"])))
+    elif path == "batch-set-value":
+        ops.append(_on(0, {"OSetValue": [_val(rng)]}))
+    elif path == "batch-set-error":
+        ops.append(_on(0, {"OSetError": [rng.randrange(200, 260)]}))
+    else:
+        ops.append(_on(pos, {"OSetValue": [_val(rng)]} if rng.random() < 0.5 else {"OSetError": [rng.randrange(200, 260)]}))
+        ops.append(rng.choice(["BCancel", "BFlush", _on(0, "OError")]))
+    ops += [_on(t, rng.choice(["OValue", "OError"])) for t in range(n, -1, -1)]
+    if rng.random() < 0.4:
+        ops.append(rng.choice(["BCancel", "BFlush", _on(0, {"OSetValue": ["VNone"]}), _on(rng.randrange(1, n + 1), {"OSetValue": ["VNone"]})]))
+    return {"args": ["KBatch", items, fin, ops, cancel],
+            "meta": {"malformed": False, "path": "cross:%s:%s:%s" % (path, rel, "guarded" if guarded else "unguarded")}}
+
+
+def _cross_single(rng, kind, guarded, first):
+    """single-future families: a subscriber that calls set_value/set_error on the future being notified"""
+    k = {"CbSet": [0, _outc(rng), "true" if guarded else "false"]}
+    subs = [{"OSubscribe": [1, k]}, {"OSubscribe": [2, "CbOk"]}]
+    rng.shuffle(subs)
+    meta = {"malformed": False, "path": "cross-single:%s:%s" % (kind, "guarded" if guarded else "unguarded")}
+    if kind == "KSusp":
+        ph = [{"mkphase": [rng.choice(["ViaFuture", "ViaBatch"]), _cleanup(rng),
+                           [{"ISubscribe": [3, k]}] + ([{"ISetValue": [_val(rng)]}] if rng.random() < 0.5 else []), {"Ok": [_val(rng)]}]}]
+        return {"args": ["KSusp", ph, {"PRet": [_val(rng)]}, subs + [first, "OValue", "OError"]], "meta": meta}
+    comp = first if kind != "KPlain" else {"OSetValue": [_val(rng)]}
+    return {"args": [kind, [{"PRet": [_val(rng)]}], {"Ok": ["VNone"]}, subs + [comp, "OValue", "OError", {"OSetError": [201]}]], "meta": meta}
+
+
+def gen_cross(rng, tier):
+    """EVERY completion path x target relation x guarded/unguarded (sweep); plus the single-future families."""
+    cs = []
+    for _ in range(1 if tier == "quick" else 12):
+        for path in CROSS_PATHS:
+            for rel in CROSS_RELS:
+                for g in (True, False):
+                    cs.append(_cross_case(rng, path, rel, g))
+        for kind in ("KLazy", "KTask", "KPlain", "KSusp"):
+            for g in (True, False):
+                cs.append(_cross_single(rng, kind, g, rng.choice(["OValue", "OError", "OCall"])))
+    return cs
+
+
 def gen_batch(rng):
     """KBatch: a batch with 1..4 items as futures; subscribers on every future; the flush body sets the items."""
     fresh = _fresh_counter()
     nitems = rng.choice([1, 2, 2, 3, 3, 4])
     sid = [0]
 
-    def beh():
+    def beh(me=0):
+        r = rng.random()
+        if r < 0.22:
+            return _cbset(rng, me, nitems)
         r = rng.random()
         return "CbOk" if r < 0.45 else _R(_xcls(rng)) if r < 0.80 else {"CbUnsub": [sid[0]]} if r < 0.92 else {"CbSub": [fresh(), "CbOk"]}
     items = []
-    for _ in range(nitems):
+    for ii in range(nitems):
         subs = []
         for _ in range(rng.choice([0, 1, 1, 2])):
             sid[0] += 1
-            subs.append({"": [sid[0], beh()]})
+            subs.append({"": [sid[0], beh(ii + 1)]})
         r = rng.random()
         acts = [] if r < 0.22 else [_outc(rng)] if r < 0.87 else [_outc(rng), _outc(rng)]
         items.append({"": [subs, acts]})
@@ -479,9 +591,14 @@ def gen_batch(rng):
         ops.append(_on(0, {"OSubscribe": [sid[0], beh()]}))
     if rng.random() < 0.2:
         ops += _batch_follow(rng, nitems, 1)
+    if rng.random() < 0.25:
+        # an item is set / subscribed from outside before the batch completes
+        t = rng.randrange(1, nitems + 1)
+        ops.append(_on(t, {"OSetValue": [_val(rng)]} if rng.random() < 0.6 else {"OSubscribe": [50, beh(t)]}))
     ops.append(_batch_completing(rng, nitems))
     ops += _batch_follow(rng, nitems, rng.choice([1, 2, 3, 4, 6]))
-    return {"args": ["KBatch", items, fin, ops], "meta": {"malformed": False}}
+    cancel = [{"": [{"n": rng.randrange(0, nitems)}, _outc(rng)]} for _ in range(rng.choice([1, 1, 2]))] if rng.random() < 0.25 else []
+    return {"args": ["KBatch", items, fin, ops, cancel], "meta": {"malformed": False}}
 
 
 XCLS_BATCH_PATHS = ["flush-item", "loop-item", "batch-subscriber"]
@@ -600,6 +717,8 @@ def gen_cases(rng, tier):
     # above gets a class of its own, then the class x computation x first-accessor sweep
     cs = [_map_case(c, lambda cls: cls, lambda _old: _xcls(rng)) for c in cs]
     cs += gen_pcls(rng, tier)
+    # cross-future callbacks (round 7), after everything older
+    cs += gen_cross(rng, tier)
     for c in cs:
         c["tree"] = c["args"]
     return cs
@@ -677,14 +796,41 @@ CORPUS = [
     # a task body that raises StopIteration (PEP 479: the task fails with RuntimeError) / is the second resolver
     _mk("KTask", [_PR(9, "XStopIteration")], {"Ok": ["VNone"]}, [{"OSubscribe": [1, "CbOk"]}, "OError", "OValue"]),
     _mk("KTask", ["PDouble"], {"Ok": ["VNone"]}, [{"OSubscribe": [1, "CbOk"]}, "OValue", "OError"]),
+    # cross-future callbacks: cancel() of a pending batch of three items; a (well-behaved, guarded) subscriber on item 1
+    # completes its later sibling item 2 with a fallback value while the batch is being cancelled
+    {"args": ["KBatch", [{"": [[{"": [1, "CbOk"]}, {"": [11, {"CbSet": [2, {"Ok": [{"VInt": [7]}]}, "true"]}]}], []]},
+                         {"": [[{"": [2, "CbOk"]}], []]}, {"": [[{"": [3, "CbOk"]}], []]}], {"PRet": ["VNone"]},
+              [_on(0, {"OSubscribe": [20, "CbOk"]}), "BCancel", _on(3, "OError"), _on(2, "OValue"), _on(1, "OError"), _on(0, "OError")], []],
+     "meta": {"corpus": True}},
+    # the same subscriber, a flush body that sets nothing and raises; error() of the last item drives the flush
+    {"args": ["KBatch", [{"": [[{"": [11, {"CbSet": [2, {"Ok": [{"VInt": [7]}]}, "true"]}]}], []]},
+                         {"": [[{"": [2, "CbOk"]}], []]}, {"": [[{"": [3, "CbOk"]}], []]}], _PR(9, "XRuntime"),
+              [_on(0, {"OSubscribe": [20, "CbOk"]}), _on(3, "OError"), _on(2, "OValue"), _on(1, "OError"), _on(0, "OError")], []],
+     "meta": {"corpus": True}},
+    # a partial flush: the body answers item 3 only; item 1's subscriber completes item 2 - unguarded, with an error
+    {"args": ["KBatch", [{"": [[{"": [11, {"CbSet": [2, {"Err": [601]}, "false"]}]}], []]},
+                         {"": [[{"": [2, "CbOk"]}], []]}, {"": [[{"": [3, "CbOk"]}], [{"Ok": [{"VInt": [3]}]}]]}], {"PRet": ["VNone"]},
+              [_on(0, {"OSubscribe": [20, "CbOk"]}), "BFlush", _on(1, "OError"), _on(2, "OError"), _on(3, "OValue"), _on(0, "OValue")], []],
+     "meta": {"corpus": True}},
+    # a _cancel() override that fills item 2 in; item 2's subscriber cancels... the batch (already computed: guarded, skipped)
+    {"args": ["KBatch", [{"": [[{"": [1, "CbOk"]}], []]}, {"": [[{"": [12, {"CbSet": [0, {"Err": [602]}, "true"]}]}, {"": [2, "CbOk"]}], []]}],
+              {"PRet": ["VNone"]},
+              [_on(0, {"OSubscribe": [20, "CbOk"]}), "BCancel", _on(2, "OValue"), _on(1, "OError"), "BCancel"],
+              [{"": [{"n": 1}, {"Ok": [{"VInt": [8]}]}]}]], "meta": {"corpus": True}},
 ]
 for _c in CORPUS:
     _c["tree"] = _c["args"]
 
 
+def _bcancel(c):
+    """KBatch: the _cancel() override's script [(item index from 0, outcome)] (5th element of args; absent = none)"""
+    return c["args"][4] if len(c["args"]) > 4 else []
+
+
 def model_input(c):
     if c["args"][0] == "KBatch":
-        return "(CBatch " + " ".join(coqrun.coq_of(a) for a in c["args"][1:]) + ")"
+        items, fin, ops = c["args"][1:4]
+        return "(CBatch " + " ".join(coqrun.coq_of(a) for a in (items, fin, _bcancel(c), ops)) + ")"
     if c["args"][0] == "KSusp":
         return "(CTask " + " ".join(coqrun.coq_of(a) for a in c["args"][1:]) + ")"
     return "(CFut " + " ".join(coqrun.coq_of(a) for a in c["args"]) + ")"
@@ -816,6 +962,8 @@ def _beh_classes(sid, k):
     (name, a), = k.items()
     if name == "CbRaise":
         return ["raises"]
+    if name == "CbSet":
+        return ["sets-a-future-guarded" if a[2] == "true" else "sets-a-future-unguarded"]
     if name == "CbUnsub":
         t = a[0]
         return ["unsub-self" if t == sid else "unsub-next" if t == sid + 1 else "unsub-previous" if t == sid - 1 else "unsub-other"]
@@ -1056,7 +1204,7 @@ def _batch_monitors(c, io):
     """A batch and its items, each of them a future of the statement.  Observation points before / after every
     operation - top-level ones and the set_value/set_error calls of the flush body - cut the history into segments:
     one operation without nested ones, or a stretch of BatchBase's own code (_compute, _computed's item loop)."""
-    _, items, fin, ops = c["args"]
+    _, items, fin, ops = c["args"][:4]
     pts = io["points"]
     log = io["out"][""][2]
     events = io.get("events", [])
@@ -1088,7 +1236,9 @@ def _batch_monitors(c, io):
             o = {p["op"]: list(items[t - 1][""][1][p["i"]].values())[0]}
             label = "KBatch/%s/in-flush" % fname(t)
         fs += _op_checks(label, p["op"], _arg(o), p["r"], q["st"][t], p["st"][t], p["runs"] - q["runs"] if t == 0 else 0, where(p))
-        fs += eps[t].op(p["op"], _arg(o), p["r"], q["st"][t], p["st"][t], io["prov"][q["nprov"]:p["nprov"]] if t == 0 else [],
+        # what the flush body was observed to do is the batch's outcome - unless a callback completed the batch meanwhile
+        by_cb = any(x["target"] == 0 for x in io.get("sets", [])[q.get("nsets", 0):p.get("nsets", 0)])
+        fs += eps[t].op(p["op"], _arg(o), p["r"], q["st"][t], p["st"][t], io["prov"][q["nprov"]:p["nprov"]] if t == 0 and not by_cb else [],
                         where(p), label=label)
     # (d) per future and per segment: completed there <=> its subscribers (registered when the segment began) were each
     # called once and saw the outcome; nobody else's subscribers of that future were called
@@ -1118,6 +1268,14 @@ def _batch_monitors(c, io):
             elif p["st"][t] is not None and q["st"][t] != p["st"][t]:
                 fs.append(dict(clause="stable-outcome", site=label + ":outcome-changed",
                                msg="outcome of future %d changed from %s to %s (%s)" % (t, p["st"][t], q["st"][t], wh)))
+    # a future completed from inside another future's notification holds THAT outcome from then on
+    if pts:
+        for x in io.get("sets", []):
+            t = x["target"]
+            if t < nf and "o" in x and pts[-1]["st"][t] != x["o"]:
+                fs.append(dict(clause="stable-outcome", site="KBatch/%s:set-by-callback-of-%s:outcome-changed" % (fname(t), fname(x["fut"])),
+                               msg="subscriber %d of future %d completed future %d with %s from inside its callback (the set returned "
+                                   "normally) but at the end that future holds %s" % (x["by"], x["fut"], t, x["o"], pts[-1]["st"][t])))
     return fs
 
 
@@ -1201,7 +1359,18 @@ def _simpler_subscribes(ops, prefix):
 
 
 def _shrink_batch(c):
-    _, items, fin, ops = c["args"]
+    cs = _bcancel(c)
+    for i in range(len(cs)):
+        yield _case(c["args"][:4] + [cs[:i] + cs[i + 1:]])
+    for x in _shrink_batch4(c):
+        if cs:
+            x["args"] = x["args"] + [cs]
+            x["tree"] = x["args"]
+        yield x
+
+
+def _shrink_batch4(c):
+    _, items, fin, ops = c["args"][:4]
     for i in range(len(ops)):
         yield _case(["KBatch", items, fin, ops[:i] + ops[i + 1:]])
     for i in range(len(items) - 1, -1, -1):
